@@ -868,6 +868,17 @@ def call(ex, st, node):
     return apply(ex, st, f, args, kwargs, node)
 
 
+def _kwguard(h, kwargs, name, node):
+    """a model only means what it says for the keywords it reads"""
+    if not kwargs:
+        return
+    from .kwguard import unknown_keywords
+    bad = unknown_keywords(h, kwargs)
+    if bad:
+        raise OutsideSubset('{}(..., {}=...): keyword not covered by the '
+                            'library model'.format(name, ', '.join(bad)), node)
+
+
 def apply(ex, st, f, args, kwargs, node):
     if isinstance(f, Lib):
         LIB_USED.add(f.name)
@@ -875,6 +886,7 @@ def apply(ex, st, f, args, kwargs, node):
         if h is None:
             raise OutsideSubset('library function {} has no model'.format(
                 f.name), node)
+        _kwguard(h, kwargs, f.name, node)
         return h(ex, st, args, kwargs, node)
     if isinstance(f, BoundMethod):
         return call_method(ex, st, f.recv, f.name, args, kwargs, node)
@@ -920,6 +932,7 @@ def call_method(ex, st, recv, name, args, kwargs, node):
         h = ex.reg.lib.get(key)
         if h is not None:
             LIB_USED.add(key)
+            _kwguard(h, kwargs, key, node)
             return h(ex, st, [recv] + list(args), kwargs, node)
         raise OutsideSubset('method {} has no model'.format(key), node)
     if isinstance(d, PyList):
